@@ -164,7 +164,13 @@ fn module_path(id: &str, game: &Game, ip: &std::net::IpAddr, port: Option<u16>) 
 
 /// Path A's original response, additionally converted the documented way for Valve per-game modules.
 fn generic_path(game: &Game, ip: &std::net::IpAddr, port: Option<u16>, ts: Option<TimeoutSettings>, extra: Option<ExtraRequestSettings>) -> GDResult<(Value, Option<Value>)> {
-    let r = gamedig::query_with_timeout_and_extra_settings(game, ip, port, ts, extra)?;
+    // the three generic entry points are wrappers of one another: each call goes through the narrowest one that takes its
+    // arguments (no extra settings -> query_with_timeout; no timeouts either -> query)
+    let r = match (&ts, &extra) {
+        (None, None) => gamedig::query(game, ip, port)?,
+        (Some(_), None) => gamedig::query_with_timeout(game, ip, port, ts)?,
+        _ => gamedig::query_with_timeout_and_extra_settings(game, ip, port, ts, extra)?,
+    };
     let orig = r.as_original();
     let conv = match &orig {
         // (converted field by field by the harness, not by the conversion the per-game modules use)
